@@ -234,6 +234,15 @@ fn covers(entry: &[FlowEntry], f: &[Option<IpAddr>]) -> bool {
 /// a probe that was answered gives its host, a probe that was sent (or whose send failed) and got no answer gives "unknown";
 /// abandoned (skipped) slots duplicate the ttl of their re-issue and have no position of their own.  For rounds that are not of
 /// the shape the strategy publishes (consecutive ascending ttls) the positions are the indices among the probes put on the wire.
+/// every hop position of the round (no cut at the reported path length)
+fn round_positions(r: &RoundIn) -> Vec<Option<IpAddr>> {
+    r.probes.iter().filter_map(|p| match p {
+        ProbeStatus::Awaited(_) | ProbeStatus::Failed(_) => Some(None),
+        ProbeStatus::Complete(c) => Some(Some(c.host)),
+        _ => None,
+    }).collect()
+}
+
 fn round_flow(r: &RoundIn) -> Vec<Option<IpAddr>> {
     let placed: Vec<(u8, Option<IpAddr>)> = r.probes.iter().filter_map(|p| match p {
         ProbeStatus::Awaited(a) => Some((a.ttl.0, None)),
@@ -293,7 +302,11 @@ fn oracle_inner(max_samples: usize, max_flows: usize, rounds: &[RoundIn]) -> Vec
                 if st.round_flow_id().0 != *id { fails.push(format!("C15:round_flow_id_{}_but_round_went_to_{id}", st.round_flow_id().0)); }
             } else {
                 // not attributed: legitimate only when saturated and no existing flow is compatible
-                let compatible = prev_flows.iter().any(|(e, _)| e.iter().zip(&fl).all(|(x, y)| !matches!((x, y), (FlowEntry::Known(a), Some(b)) if a != b)));
+                // (with a first ttl above 1 the code's flow of a round reaches beyond the reported path length - it keeps `largest_ttl`
+                //  ENTRIES, not the hops up to that ttl; an address out there may legitimately conflict with every recorded flow, so
+                //  "compatible" is judged on all placed hops of the round, the longer of the two readings)
+                let placed = round_positions(r);
+                let compatible = prev_flows.iter().any(|(e, _)| e.iter().zip(&placed).all(|(x, y)| !matches!((x, y), (FlowEntry::Known(a), Some(b)) if a != b)));
                 if before < max_flows { fails.push("C15:round_not_attributed_although_below_max_flows".to_string()); }
                 else if compatible { fails.push("C15:saturated:round_matching_an_existing_flow_not_attributed".to_string()); }
             }
